@@ -1123,6 +1123,11 @@ impl Gc {
                 }
             }
 
+            // Garbage is normally only collected when `collect_limit` is reached but that may be
+            // above the memory limit: collect before an allocation is refused because of garbage
+            if self.allocated_memory.saturating_add(def.size()) >= self.memory_limit {
+                self.collect_limit = self.collect_limit.min(self.allocated_memory);
+            }
             self.check_collect(Scope1(roots, &def));
             self.alloc_owned(def)
         }
